@@ -84,7 +84,8 @@ def gen_jump_target(rng, cfg):
   p = cfg.get('preconditioning_compute_steps', 1)
   s = cfg.get('statistics_compute_steps', 1)
   S = cfg.get('start_preconditioning_step', 5)
-  base = pick(rng, [p, s, p * s, 10, 1000, 1 << 16, 1 << 20])
-  k = rng.randrange(1, 6)
+  # (1 << 24: the first step index a float32 cannot represent exactly)
+  base = pick(rng, [p, s, p * s, 10, 1000, 1 << 16, 1 << 20, 1 << 24])
+  k = rng.randrange(1, 6) if base < (1 << 24) else rng.randrange(1, 4)
   cand = [base * k - 1, base * k, base * k + 1, max(S - 1, 0), S, S + 1]
   return max(0, pick(rng, cand))
